@@ -44,6 +44,16 @@ func (op *FsTxn) CommitFh() bool {
 // An aborted transaction may free an inode, which results in dirty
 // buffers that need to be written to log. So, call commit.
 func (op *FsTxn) Abort() bool {
+	// The transaction's changes to its cached inodes (and to their name
+	// caches) are not going to reach the disk: drop those inodes from the
+	// cache, while still holding their locks, so that the next user reads
+	// them from disk again.
+	for _, ip := range op.inodes {
+		cslot := op.Fs.Icache.LookupSlot(uint64(ip.Inum))
+		if cslot != nil {
+			cslot.Obj = nil
+		}
+	}
 	op.releaseInodes()
 	op.Atxn.PostAbort()
 	return true
